@@ -27,8 +27,8 @@ pub mod util;
 use case::{case_strategy, Case, Dom, DOM_COUNTS, DOM_ISO, DOM_P2, DOM_STD, DOM_SVM};
 use vengine::{prop_sub, Obs, Property, SubCheck, Tier};
 
-const QUICK: u32 = 2500;
-const THOROUGH: u32 = 40000;
+const QUICK: u32 = 10000;
+const THOROUGH: u32 = 100000;
 
 fn sub(name: &'static str, dom: Dom, check: fn(&Case, &mut Obs)) -> Box<dyn SubCheck> {
     prop_sub(name, QUICK, THOROUGH, move |t: Tier| case_strategy(t, dom), check)
